@@ -155,6 +155,11 @@ def check_case(ctx, case):
                             aa.set_prange(list(case['stored']))
                             aa = 1.0 * aa
                     arg = None if case.get('explicit') is False else list(case['range'])
+                    # timeslices that were analysed before with other parameters: auto_gamma=True means the default analysis
+                    # of every timeslice, whatever was done to the observables earlier
+                    for t_, kw_ in case.get('pre_gm', []):
+                        if t_ < len(aa.content) and aa.content[t_] is not None:
+                            aa.content[t_][0].gamma_method(**kw_)
                     res = aa.plateau(arg, method=case['method'], auto_gamma=True)
         exc = None
     except Exception as e:
@@ -300,6 +305,8 @@ def gen_case(ctx, pattern=None, T=None):
             case['stored'] = [lo2, rng.randint(lo2, T - 1)]
             case['stored_how'] = rng.choice(['set', 'ctor', 'arith'])
             case['explicit'] = rng.random() < 0.7
+        if rng.random() < 0.6:
+            case['pre_gm'] = [[rng.randrange(T), rng.choice([{'S': 6.0}, {'S': 0.0}, {'tau_exp': 8.0}, {'S': 0.5, 'N_sigma': 3.0}])] for _ in range(rng.randint(2, 5))]
     case['vals'] = gen_vals(rng, T, shape, pattern)
     case['shape'] = shape
     if q in ('meff', 'deriv', 'second'):
